@@ -70,7 +70,11 @@ theorem optsLoop_fuel (f1 : Nat) : ∀ (f2 : Nat) (l : Lexer) (o : Opts),
             obtain ⟨d, l3⟩ := r3
             cases d with
             | none => rfl
-            | some d => simp only at hc ⊢; exact ih f2 l3 _ (by omega) (by omega)
+            | some d =>
+              simp only at hc ⊢
+              by_cases he3 : l3.err = true
+              · simp [he3]
+              · simp only [he3, if_false]; exact ih f2 l3 _ (by omega) (by omega)
       · simp [hl]
 
 theorem optsLoop'_nil (e : Bool) (o : Opts) : optsLoop' ⟨[], e⟩ o = some (o, false) := by
@@ -86,23 +90,23 @@ theorem optsLoop'_end (rest : Bytes) (e : Bool) (o : Opts) :
 
 /-- One complete code/length/value instance. -/
 theorem optsLoop'_tlv (c : UInt8) (hc0 : c ≠ 0) (hc255 : c ≠ 255) (v rest : Bytes) (hv : v.length < 256)
-    (e : Bool) (o : Opts) :
-    optsLoop' ⟨c :: UInt8.ofNat v.length :: (v ++ rest), e⟩ o = optsLoop' ⟨rest, e⟩ (o.app c v) := by
+    (o : Opts) :
+    optsLoop' ⟨c :: UInt8.ofNat v.length :: (v ++ rest), false⟩ o = optsLoop' ⟨rest, false⟩ (o.app c v) := by
   unfold optsLoop'
   rw [optsLoop]
   simp only [Lexer.len, List.length_cons, ge_iff_le, Nat.le_add_left, if_true, Lexer.read8_cons,
     optPad, optEnd, hc0, hc255, if_false]
-  rw [Lexer.consume_append v rest e (by simp [UInt8.toNat_ofNat_lt hv])]
-  simp only
+  rw [Lexer.consume_append v rest false (by simp [UInt8.toNat_ofNat_lt hv])]
+  simp only [Bool.false_eq_true, if_false]
   apply optsLoop_fuel <;> simp <;> omega
 
 theorem chunksAux_nil (c : UInt8) (fuel : Nat) : chunksAux c fuel [] = [] := by
   cases fuel <;> simp [chunksAux]
 
-theorem optsLoop'_chunksAux (c : UInt8) (hc0 : c ≠ 0) (hc255 : c ≠ 255) (e : Bool) :
+theorem optsLoop'_chunksAux (c : UInt8) (hc0 : c ≠ 0) (hc255 : c ≠ 255) :
     ∀ (n : Nat) (v : Bytes) (fuel : Nat) (rest : Bytes) (o : Opts), v.length ≤ n → v ≠ [] →
       v.length ≤ fuel →
-      optsLoop' ⟨chunksAux c fuel v ++ rest, e⟩ o = optsLoop' ⟨rest, e⟩ (o.app c v) := by
+      optsLoop' ⟨chunksAux c fuel v ++ rest, false⟩ o = optsLoop' ⟨rest, false⟩ (o.app c v) := by
   intro n
   induction n using Nat.strongRecOn with
   | _ n ih =>
@@ -119,7 +123,7 @@ theorem optsLoop'_chunksAux (c : UInt8) (hc0 : c ≠ 0) (hc255 : c ≠ 255) (e :
         have htl : (v.take chunkMax).length = chunkMax := by
           simp [List.length_take]; unfold chunkMax at *; omega
         have := optsLoop'_tlv c hc0 hc255 (v.take chunkMax) (chunksAux c fuel (v.drop chunkMax) ++ rest)
-          (by rw [htl]; decide) e o
+          (by rw [htl]; decide) o
         rw [htl] at this
         simp only [List.cons_append, List.append_assoc]
         rw [this]
@@ -135,20 +139,20 @@ theorem optsLoop'_chunksAux (c : UInt8) (hc0 : c ≠ 0) (hc255 : c ≠ 255) (e :
         have hlt : v.length < 256 := by unfold chunkMax at hbig; omega
         simp only [List.take_length, List.drop_length, chunksAux_nil, List.append_nil,
           List.cons_append]
-        exact optsLoop'_tlv c hc0 hc255 v rest hlt e o
+        exact optsLoop'_tlv c hc0 hc255 v rest hlt o
 
 /-- `Marshal`'s output for one option is read back as one `append`. -/
-theorem optsLoop'_chunks (c : UInt8) (hc0 : c ≠ 0) (hc255 : c ≠ 255) (v rest : Bytes) (e : Bool)
+theorem optsLoop'_chunks (c : UInt8) (hc0 : c ≠ 0) (hc255 : c ≠ 255) (v rest : Bytes)
     (o : Opts) :
-    optsLoop' ⟨chunks c v ++ rest, e⟩ o = optsLoop' ⟨rest, e⟩ (o.app c v) := by
+    optsLoop' ⟨chunks c v ++ rest, false⟩ o = optsLoop' ⟨rest, false⟩ (o.app c v) := by
   unfold chunks
   by_cases hv : v.length = 0
   · have : v = [] := List.eq_nil_of_length_eq_zero hv
     subst this
     simp only [List.length_nil, if_true]
-    exact optsLoop'_tlv c hc0 hc255 [] rest (by simp) e o
+    exact optsLoop'_tlv c hc0 hc255 [] rest (by simp) o
   · simp only [hv, if_false]
-    exact optsLoop'_chunksAux c hc0 hc255 e v.length v v.length rest o (Nat.le_refl _)
+    exact optsLoop'_chunksAux c hc0 hc255 v.length v v.length rest o (Nat.le_refl _)
       (by intro h; simp [h] at hv) (Nat.le_refl _)
 
 end Dhcp.V4
